@@ -217,12 +217,21 @@ impl Compactor {
         loop {
             {
                 let tables = self.storage.tables.read().clone();
+                // (deterministic table order for the verification scheduler)
+                #[cfg(feature = "verif")]
+                let tables = {
+                    let mut v: Vec<_> = tables.into_iter().collect();
+                    v.sort_by_key(|(id, _)| (id.schema_id, id.table_id));
+                    v
+                };
                 #[cfg(feature = "verif")]
                 crate::verif::gate("compactor.pass.start").await;
                 let pin_version = self.storage.version.pin();
                 #[cfg(feature = "verif")]
                 crate::verif::gate("compactor.after_pin").await;
                 for (_, table) in tables {
+                    #[cfg(feature = "verif")]
+                    crate::verif::event("compactor.table", &table.table_id().to_string());
                     #[cfg(feature = "verif")]
                     crate::verif::gate("compactor.table.before_lock").await;
 
@@ -235,6 +244,8 @@ impl Compactor {
                         warn!("failed to compact: {:?}", err);
                     }
                 }
+                #[cfg(feature = "verif")]
+                crate::verif::gate("compactor.pass.end").await;
                 match self.stop.try_recv() {
                     Ok(_) => break,
                     Err(tokio::sync::oneshot::error::TryRecvError::Closed) => break,
